@@ -71,9 +71,13 @@ ASSUMPTIONS = [
     'without allow_inf; from_ordinal outside the range; stepping past the largest value without allow_inf).',
 ]
 EXHAUSTIVE = {'quick': True, 'thorough': True}
-FLOORS = {'p=1': 0.02, 'es<=1': 0.05, 'top-binade-partial': 0.05, 'no-nonzero': 0.001, 'special': 0.01,
-          'nonmember': 0.1, 'level:ctx': 0.3, 'fam:exp': 100, 'fam:fixed': 500, 'fam:smfixed': 500, 'fam:ieee': 1000,
-          'fam:mps': 500, 'fam:mpb': 500, 'fam:mpfixed': 200, 'fam:mpbfixed': 500, 'fam:native': 3000}
+# fractions of the evaluations (< 1) or absolute counts (>= 1); the degenerate corners are a fixed-size family, so
+# they get absolute floors (their share shrinks as the width bound grows)
+FLOORS = {'p=1': 0.02, 'es<=1': 0.05, 'top-binade-partial': 0.05, 'no-nonzero': 2000, 'special': 10000, 'zero': 5000,
+          'adjacent-special': 10000, 'extreme': 5000, 'subnormal-boundary': 5000, 'beyond-range': 10000,
+          'absent-special': 3000, 'nonmember': 0.1, 'level:ctx': 0.3, 'fam:exp': 1000, 'fam:fixed': 5000,
+          'fam:smfixed': 5000, 'fam:ieee': 5000, 'fam:mps': 5000, 'fam:mpb': 20000, 'fam:mpfixed': 5000,
+          'fam:mpbfixed': 5000, 'fam:native': 20000, 'native:16': 5000, 'native:32': 5000, 'native:64': 5000}
 
 NKNAME = {0: 'IEEE_754', 1: 'MAX_VAL', 2: 'NEG_ZERO', 3: 'NONE'}
 NK = {0: fp.EFloatNanKind.IEEE_754, 1: fp.EFloatNanKind.MAX_VAL, 2: fp.EFloatNanKind.NEG_ZERO, 3: fp.EFloatNanKind.NONE}
